@@ -708,3 +708,24 @@ func (ex *Explorer) runOnce(body func()) *Execution {
 	s.cur = nil
 	return e
 }
+
+// Quiesce parks the calling thread until no other thread is enabled. It is
+// meant for the deterministic setup phase (outside the explored window), so
+// that the explored window starts from a settled state.
+func Quiesce() {
+	if !s.running || s.aborting {
+		return
+	}
+	if s.exploring {
+		panic("vsched: Quiesce inside the explored window")
+	}
+	me := s.cur
+	StepWhen(Op{Label: "quiesce"}, func() bool {
+		for _, t := range s.threads {
+			if t != me && t.enabled() {
+				return false
+			}
+		}
+		return true
+	})
+}
